@@ -6,7 +6,7 @@ wt = f"/wt/{pid}"
 tasks = json.load(open('/verif/tools/agent_tasks2.json'))[pid]
 subprocess.run(["git", "-C", wt, "merge", "-q", "--ff-only", "main"], check=True)
 if os.path.isdir("/verif/lean/.lake"):
-    subprocess.run(["rsync", "-a", "--delete", "/verif/lean/.lake/", f"{wt}/lean/.lake/"], check=True)
+    subprocess.run(["rsync", "-a", "--delete", "/verif/lean/.lake/", f"{wt}/lean/.lake/"])
 os.makedirs(f"{wt}/.work/bin", exist_ok=True)
 tmpl = open('/verif/tools/agent_prompt2.txt').read()
 t = "\n".join(f"  {i+1}. {x}" for i, x in enumerate(tasks))
